@@ -242,6 +242,18 @@ impl Context {
         let removed_from_rc = self.decrease_ref_count(state.memory_block_index);
         if removed_from_rc {
             self.memory_blocks.remove(state.memory_block_index);
+            // the memory blocks that follow the removed one have moved one place,
+            // so whoever refers to them by index must follow
+            for index in self.static_memory_blocks.values_mut() {
+                if *index > state.memory_block_index {
+                    *index -= 1;
+                }
+            }
+            for other_state in self.states.iter_mut() {
+                if other_state.memory_block_index > state.memory_block_index {
+                    other_state.memory_block_index -= 1;
+                }
+            }
         }
         state
     }
